@@ -175,7 +175,8 @@ Definition op_pre_basic (g : graph) (o : op) : bool :=
      the link cannot be made (7b7379b); the interface is not itself a service port (documented domain);
    - disconnect_interface, unpeer, remove_child_interface: sub-interfaces hang off DedicatedPorts only (what
      add_child_interface enforces); disconnect_interface not on a service port;
-   - peer: two different services (peer(a, a) would give two ports of one name) and a free link name;
+   - peer: two different services (peer(a, a) gives two ports of one name) and a free link name -- the two open
+     defects of peer -- or a library that checks both itself (proposed C07-7);
    - remove_node / remove_component / remove_facility / remove_switch / remove_network_service (both levels): rem_pre;
    - add_network_service with interfaces, add_port_mirror_service: conn_pre;
    - add_facility, add_switch: none (a rejected later step takes the half-built node away again). *)
@@ -198,16 +199,16 @@ Definition op_pre (fl : flags) (g : graph) (o : op) : bool :=
   | OAddFacility _ _ _ | OAddSwitch _ _ _ => true
   | OConnect s i => fl_connect_names fl && fl_connect_undo fl && negb (typ_is g i sServicePort)
   | ODisconnect s i => subs_under_dedicated g && negb (typ_is g i sServicePort)
-  | OPeer a b => negb (str_eqb a b) && peer_link_free g a b
+  | OPeer a b => fl_peer_checks fl || (negb (str_eqb a b) && peer_link_free g a b)
   | OUnpeer a b => subs_under_dedicated g
   | ORemoveSub i name => subs_under_dedicated g
   | _ => op_pre_basic g o
   end.
 
 (* the library as it is at /repo HEAD: none of the proposed repairs C07-3..6 *)
-Definition flags_off : flags := mkFlags false false false false false false.
+Definition flags_off : flags := mkFlags false false false false false false false.
 (* ... with all of them *)
-Definition flags_on : flags := mkFlags true true true true true true.
+Definition flags_on : flags := mkFlags true true true true true true true.
 
 Definition hstep := (op * list str * list str)%type.   (* call, ids drawn from uuid4, iteration-order hint *)
 Fixpoint run_hist (sub : bool) (fl : flags) (g : graph) (h : list hstep) : graph :=
